@@ -136,7 +136,10 @@ def roll_axis(self, axis, start=0, recursive=True, rank=None):
                          % (type(self).__name__, -rank, rank, axis))
 
     # Identify the start axis, which could be negative
-    a2 = start & rank
+    if start < 0:
+        a2 = start + rank
+    else:
+        a2 = start
 
     if a2 < 0 or a2 >= rank + 1:
         raise ValueError('%s.roll_axis() start out of range (%d,%d): %d'
